@@ -26,7 +26,7 @@ def mask(w):
 
 class Ref:
     """A resolved (partially) selected object."""
-    __slots__ = ('var', 'val', 'vtype', 'udims', 'slot', 'guards', 'ptype', 'off',
+    __slots__ = ('var', 'val', 'udims', 'slot', 'guards', 'ptype', 'off',
                  'whole', 'dynpart', 'tw', 'stride')
 
     def __init__(self):
